@@ -49,6 +49,13 @@ const FAIL_KINDS: [(&str, &str); 7] = [
     ("wrong-arity-rest", "((lambda (x y . z) x) 1)"),
 ];
 
+/// failures at compile time whose abandoned compilation has already allocated (literals, nested lambdas)
+const COMPILE_FAILS: [(&str, &str); 3] = [
+    ("compile-error-after-literal", "(let ((x '(1 2 3 4 5 6 7 8 9 10))) (if))"),
+    ("compile-error-in-nested-lambda", "(lambda (x) (lambda (y) \"a string literal\" '#(1 2 3) (lambda)))"),
+    ("compile-error-in-quasiquote", "`(1 2 3 ,(if) 4 5)"),
+];
+
 const BAD_SYNTAX: [&str; 6] = ["(if)", "(lambda)", "(let ((x)) x)", "(define)", "()", "(set! 5 6)"];
 const BAD_TEXT: [&str; 4] = ["(+ 1", "(car '(1 2)", ")", "\"abc"];
 
@@ -362,12 +369,13 @@ fn case(ctx: &Ctx, bytes: &[u8]) -> Outcome {
 
 /// k consecutive failures at depth d: sp, stack capacity and heap must not grow with k.
 fn ladder(ctx: &Ctx, depth: usize, kind: usize, k: usize) -> Option<(String, String, Value)> {
-    let (kname, expr) = FAIL_KINDS[kind % FAIL_KINDS.len()];
+    let compile_time = kind >= FAIL_KINDS.len();
+    let (kname, expr) = if compile_time { COMPILE_FAILS[(kind - FAIL_KINDS.len()) % COMPILE_FAILS.len()] } else { FAIL_KINDS[kind] };
     let mut s = SutSession::new(RunOpts::default());
     for f in read_all(SETUP).unwrap() {
         s.eval_form(&f);
     }
-    let fail = read(&format!("(c07-deep {} (lambda () {}))", depth, expr)).unwrap();
+    let fail = if compile_time { read(expr).unwrap() } else { read(&format!("(c07-deep {} (lambda () {}))", depth, expr)).unwrap() };
     let payload = json!({"ladder": {"depth": depth, "kind": kname, "k": k}});
     let mut after_one = (0usize, 0usize, 0usize, 0usize);
     let mut first_cap = 0usize;
@@ -375,6 +383,11 @@ fn ladder(ctx: &Ctx, depth: usize, kind: usize, k: usize) -> Option<(String, Str
         let (r, _) = s.eval_form(&fail);
         if let FormResult::Panic(p) = r {
             return Some(("C07|panic".into(), format!("failure #{} panicked: {}", i, p), payload));
+        }
+        if !matches!(r, FormResult::Failed(_)) {
+            // not a failure in this build: nothing to measure
+            ctx.class("ladder-form-did-not-fail");
+            return None;
         }
         // live cells: measured right after a forced collection (the collector only runs
         // by itself above 75% utilisation, so garbage of earlier failures may still be around)
@@ -420,7 +433,7 @@ impl Prop for C07 {
         "C07"
     }
     fn rule(&self) -> &'static str {
-        "generated sessions (C01/C05 generator) with 1-4 injected failing forms (7 run-time error kinds at call depth 0/1/3/20/100/200, inside or outside a call/cc receiver, after 0-2 completed effects; bad-syntax forms; unbalanced texts; one of them repeated up to 12 times) and witness probes after each; in half of the sessions a continuation captured under 10/60/100/300 pending calls before the failures is re-entered after each of them; plus a ladder of k consecutive failures, k in {1,2,10,100,1000} x depth x kind. Non-trivial: a failing form is followed by a succeeding form that is compared with the reference, or by another failing form; distinct by session text."
+        "generated sessions (C01/C05 generator) with 1-4 injected failing forms (7 run-time error kinds at call depth 0/1/3/20/100/200, inside or outside a call/cc receiver, after 0-2 completed effects; bad-syntax forms; unbalanced texts; one of them repeated up to 12 times) and witness probes after each; in half of the sessions a continuation captured under 10/60/100/300 pending calls before the failures is re-entered after each of them; plus a ladder of k consecutive failures, k in {1,2,10,100,1000} x depth x kind (7 run-time kinds, and 3 compile-time failures whose abandoned compilation has already allocated literals or nested lambdas). Non-trivial: a failing form is followed by a succeeding form that is compared with the reference, or by another failing form; distinct by session text."
     }
     fn assumptions(&self) -> Vec<&'static str> {
         vec![
@@ -436,10 +449,12 @@ impl Prop for C07 {
         let ks: &[usize] = &[1, 2, 10, 100, 1000];
         let mut idx = 0;
         for depth in [0usize, 5, 100] {
-            for kind in 0..FAIL_KINDS.len() {
+            let kinds = if depth == 0 { FAIL_KINDS.len() + COMPILE_FAILS.len() } else { FAIL_KINDS.len() };
+            for kind in 0..kinds {
+                let ks: &[usize] = if kind >= FAIL_KINDS.len() { &[1, 2, 10, 100, 1000, 5000] } else { ks };
                 for k in ks {
                     // quick tier: the 1000-failure rung only for the deepest chain and three kinds
-                    if ctx.tier == Tier::Quick && *k == 1000 && (depth != 100 || kind > 2) {
+                    if ctx.tier == Tier::Quick && *k == 1000 && (depth != 100 || kind > 2) && kind < FAIL_KINDS.len() {
                         continue;
                     }
                     idx += 1;
@@ -459,7 +474,11 @@ impl Prop for C07 {
             "ladder" => {
                 let l = &payload["ladder"];
                 let kname = l["kind"].as_str().unwrap_or("");
-                let ki = FAIL_KINDS.iter().position(|(n, _)| *n == kname).unwrap_or(0);
+                let ki = FAIL_KINDS
+                    .iter()
+                    .position(|(n, _)| *n == kname)
+                    .or_else(|| COMPILE_FAILS.iter().position(|(n, _)| *n == kname).map(|i| i + FAIL_KINDS.len()))
+                    .unwrap_or(0);
                 match ladder(ctx, l["depth"].as_u64().unwrap_or(0) as usize, ki, l["k"].as_u64().unwrap_or(1) as usize) {
                     Some((sig, detail, p)) => Outcome::fail(sig, detail, p),
                     None => Outcome::Pass,
